@@ -607,7 +607,7 @@ def gen_inputs(rng, n_mat, with_nonsquare=True):
         out.append({
             "shape": shape, "integer": integer, "Q": Q, "J0": J0,
             "c": Fraction(rng.randint(-8, 8), 4) * scale, "c0": Fraction(rng.randint(-8, 8), 4) * scale,
-            "h0": [Fraction(rng.randint(-8, 8), 2) * scale for _ in range(hl)],
+            "h0": [Fraction(rng.randint(-8, 8), 4) * scale for _ in range(hl)],     # quarters: 2*h need not be an integer (integer-typed J)
             "maps": [[Fraction(rng.randint(-8, 8), 4) for _ in range(n)] for _ in range(2)],
             "xfloat": bool(k % 2), "hlist": bool(k % 3 == 0), "vseed": rng.randrange(10 ** 6),
         })
